@@ -198,10 +198,9 @@ func (u *Upstream) waitToSendAllDataPointsAndReceiveAllAck(ctx context.Context) 
 		return errors.Errorf("failed to flush chunk: %w", err)
 	}
 
-	alreadyReceivedLastSentAck := atomic.LoadUint32(&u.maxSequenceNumberInReceivedUpstreamChunkResults) == u.sequence.CurrentValue()
-	if alreadyReceivedLastSentAck {
-		return nil
-	}
+	// Acks are per chunk, not cumulative: "the highest acknowledged sequence number is the last
+	// issued one" says nothing about earlier chunks, so there is no shortcut here - the loop below
+	// returns at once when the sent storage holds no unacknowledged chunk of this stream.
 
 	u.receivedAck.L.Lock()
 	var err error
